@@ -395,6 +395,11 @@ fn child_session(pty: &Pty, seed: u64, i: usize, tier: Tier, which: Which) -> Ou
         Ok(Err(e)) => {
             o.harness_error = Some(format!("loop session {i}: run_app returned an io error: {e}"));
         }
+        // ratatui's constraint solver giving up on the hop table's column constraints (the known
+        // finding, keyed like in the mirrored driver)
+        Err(p) if which == Which::Crash && (p.message.contains("failed to split") || p.message.contains("InternalSolverError")) => {
+            o.violate("layout_solver_fails", format!("view=table|columns={}", crate::props::c17::column_class(&setup.columns)), format!("{ctx}: the real event loop panicked at {}:{}: {}", p.file, p.line, p.message), replay.clone());
+        }
         Err(p) if which == Which::Crash => {
             let view = "run_app";
             if p.in_repo() {
